@@ -133,7 +133,20 @@ async def _rounds(loop: vloop.VirtualLoop, rng: random.Random, peer: socket.sock
                     task.uncancel()
         except (OSError, RuntimeError) as exc:  # incl. ssl.SSLError: the stream above the lost bytes is broken
             on_data(_RecvError(f"{type(exc).__name__}: {exc}"))
-            return
+            break
+    # no armed request may fire later than this point (it would hit the harness's own drain / close code)
+    for _ in range(50):
+        if not loop._before and not loop._after:
+            break
+        try:
+            await asyncio.sleep(0)
+        except asyncio.CancelledError:
+            asyncio.current_task().uncancel()
+    for _ in range(3):
+        try:
+            await asyncio.sleep(0)
+        except asyncio.CancelledError:
+            asyncio.current_task().uncancel()
 
 
 def async_layer(ctx, layer: str, rng: random.Random, sizes: list[int], slots: list[str], kind: str) -> tuple[str | None, list]:
